@@ -385,7 +385,7 @@ pub fn run(ctx: &Ctx) -> anyhow::Result<Report> {
 	}
 
 	// 1. every permutation of generated sets
-	for (n, full, partial) in [(2usize, if t { 700 } else { 110 }, if t { 300 } else { 50 }), (3, if t { 400 } else { 60 }, if t { 200 } else { 30 }), (4, if t { 160 } else { 24 }, if t { 80 } else { 12 })] {
+	for (n, full, partial) in [(2usize, if t { 700 } else { 70 }, if t { 300 } else { 30 }), (3, if t { 400 } else { 36 }, if t { 200 } else { 18 }), (4, if t { 160 } else { 14 }, if t { 80 } else { 7 })] {
 		for i in 0..(full + partial) {
 			let mut m = gen_full(&mut rng, n, n == 4);
 			let stream = if i < full { format!("perms{n}-full") } else { punch(&mut rng, &mut m, 10); format!("perms{n}-partial") };
@@ -395,7 +395,7 @@ pub fn run(ctx: &Ctx) -> anyhow::Result<Report> {
 	}
 
 	// 2. an entry without a name in the future first namespace
-	for i in 0..(if t { 600 } else { 90 }) {
+	for i in 0..(if t { 600 } else { 60 }) {
 		let n = 2 + i % 3;
 		let mut m = gen_full(&mut rng, n, true);
 		ensure_member(&mut rng, &mut m);
@@ -420,7 +420,7 @@ pub fn run(ctx: &Ctx) -> anyhow::Result<Report> {
 	}
 
 	// 3. duplicate names in the future first namespace
-	for i in 0..(if t { 600 } else { 90 }) {
+	for i in 0..(if t { 600 } else { 60 }) {
 		let n = 2 + i % 3;
 		let mut m = gen_full(&mut rng, n, true);
 		ensure_member(&mut rng, &mut m);
@@ -529,7 +529,7 @@ pub fn run(ctx: &Ctx) -> anyhow::Result<Report> {
 
 	// 7. remapper_a(from, to).map_field_desc
 	const ODD: [&str; 16] = ["", "I", "[[I", "LA;", "LL;", "LLL;;", "L;", "L", "LA", "LA;;", "[LA;LB;", "(LA;[[LB;I)LA$B;", "La;b;", "ILI;", "LI;L", "L\u{dc};"];
-	for i in 0..(if t { 3000 } else { 500 }) {
+	for i in 0..(if t { 3000 } else { 300 }) {
 		let n = 2 + i % 3;
 		let mut m = gen_full(&mut rng, n, true);
 		if i % 2 == 1 { punch(&mut rng, &mut m, 4); }
@@ -550,7 +550,16 @@ pub fn run(ctx: &Ctx) -> anyhow::Result<Report> {
 			}
 		}
 	}
-	r.exhaustive = true;
+	// spread the heavy CPerms cases over all shards
+	{
+		let n = r.cases.len();
+		let shards = if t { 96usize } else { 32 };
+		let mut mixed = Vec::with_capacity(n);
+		for j in 0..shards { let mut i = j; while i < n { mixed.push(std::mem::take(&mut r.cases[i])); i += shards; } }
+		r.cases = mixed;
+		r.shard_size = (n + shards - 1) / shards;
+	}
+	r.exhaustive = false;
 	r.notes.push("exhaustive in the permutation dimension only: all n! namespace orders of every generated set (n = 2, 3, 4); the sets themselves are sampled".into());
 	Ok(r)
 }
